@@ -174,7 +174,7 @@ Proof.
   split; [repeat constructor; cbn [hop_wf rop_wf]; repeat split; try reflexivity; repeat constructor|].
   split; [split; [reflexivity|intros s E; discriminate E]|]. vm_compute. reflexivity.
 Qed.
-Definition ex_chunked : list hop := [HSetBodyStream (-1) (mkStream SKReader [s2b "abc"; s2b "defg"] false)].
+Definition ex_chunked : list hop := [HSetBodyStream (-1) (mkStream SKReader [s2b "abc"; s2b "defg"] false false)].
 Example C03_ex_chunked :
   guard MGet (finished cfg0 q_get ex_chunked) /\
   fst (fst (serve_one ok d0 cfg0 q_get ex_chunked)) =
